@@ -76,7 +76,7 @@ pub fn run(cfg: &Cfg, rep: &mut Report) {
         let want = spec::is_block_terminator(&opname);
         let (mut b, what) = prepare(rng, state);
         let mut marker = 1000;
-        let mut block_len = |b: &Builder| -> usize {
+        let block_len = |b: &Builder| -> usize {
             let m = b.module_ref();
             match (b.selected_function(), b.selected_block()) {
                 (Some(f), Some(k)) => m.functions[f].blocks[k].instructions.len(),
